@@ -217,13 +217,104 @@ def event_spec(rng, inst, tag, offgrid=False):
     return ev
 
 
+def _history_event(rng, inst, tag, offgrid):
+    """Event spec for objects that are played more than once.  Pitch is given
+    only by an explicit `freq` (or not at all) and without harmonic/detune: the
+    port stores the played frequency back into the event's `freq` key, the
+    SuperCollider original does not; with this restriction both give the same
+    value on every later play.  No variant (the port stores the composed name
+    back into `instrument`)."""
+    ev = {'instrument': inst['name'], 'tag': tag}
+    if rng.random() < 0.6:
+        ev['freq'] = _numv(rng, [55, 110.5, 220, 333.3, 440, 1234.5])
+    ev.update(amp_keys(rng))
+    ev.update(dur_keys(rng, offgrid))
+    ev.update(server_keys(rng, inst))
+    ev.update(control_keys(rng, inst))
+    return ev
+
+
+def _history_edit(rng, ev, insts, offgrid):
+    """Edit of the user keys of an event between two plays: (set, delete)."""
+    by_name = {i['name']: i for i in insts}
+    inst = by_name[ev['instrument']]
+    st, dl = {}, []
+    if rng.random() < 0.15:
+        inst = rng.choice(insts)
+        st['instrument'] = inst['name']
+    for _ in range(rng.randint(1, 4)):
+        what = rng.choice(['control', 'control', 'amp', 'dur', 'freq', 'server',
+                           'delete', 'delete'])
+        if what == 'control':
+            st.update(control_keys(rng, inst))
+        elif what == 'amp':
+            st.update(amp_keys(rng))
+        elif what == 'dur':
+            st.update(dur_keys(rng, offgrid))
+        elif what == 'freq':
+            st['freq'] = _numv(rng, [55, 110.5, 220, 333.3, 440, 1234.5])
+        elif what == 'server':
+            st.update(server_keys(rng, inst))
+        else:
+            cand = [k for k in ev if k not in ('instrument', 'tag')
+                    and k not in st]
+            if cand:
+                dl.append(rng.choice(cand))
+    dl = [k for k in dict.fromkeys(dl) if k not in st]
+    return st, dl
+
+
+def history_steps(rng, insts, tags, offgrid):
+    """Multi-step histories on event OBJECTS: create and play, edit (set / add
+    / delete keys) and play again, copy() + edit and play.  Every step records
+    the keys the event defines at that play (`event`), how the object is
+    obtained (`obj`, `new` | `replay` | `copy_of`) and the edit."""
+    steps, state = [], {}       # state: object index -> current user keys
+    lineage = {}                # object index -> tags of earlier plays
+    for _ in range(rng.randint(2, 6)):
+        wait = rng.choice(OFF_DUR if offgrid else GRID_DUR + [0, 0])
+        r = rng.random()
+        if not state or r < 0.2:
+            k = len(state)
+            ev = _history_event(rng, rng.choice(insts), next(tags), offgrid)
+            state[k], lineage[k] = ev, []
+            steps.append({'wait': wait, 'event': dict(ev), 'how': 'object',
+                          'obj': k, 'op': 'new', 'prev_tags': []})
+            lineage[k].append(ev['tag'])
+            continue
+        src = rng.choice(sorted(state))
+        if r < 0.5:
+            k, op = len(state), 'copy'
+            state[k] = dict(state[src])
+            lineage[k] = list(lineage[src])
+        else:
+            k, op = src, 'replay'
+        st, dl = _history_edit(rng, state[k], insts, offgrid)
+        if rng.random() < 0.15:
+            st, dl = {}, []             # plain replay: same values again
+        st['tag'] = next(tags)
+        for key in dl:
+            state[k].pop(key, None)
+        state[k].update(st)
+        steps.append({'wait': wait, 'event': dict(state[k]), 'how': 'object',
+                      'obj': k, 'op': op, 'src': src, 'set': st, 'del': dl,
+                      'prev_tags': list(lineage[k])})
+        lineage[k].append(st['tag'])
+    return steps
+
+
 def play_program(rng, insts, tags):
     """A play program: events played directly, from the main thread (absolute
-    time 0) or from a routine on SystemClock / TempoClock(1) after waits."""
+    time 0) or from a routine on SystemClock / TempoClock(1) after waits.  A
+    third of the programs are histories on event objects (history_steps)."""
     where = rng.choice(['main', 'routine-system', 'routine-system',
                         'routine-tempo'])
     latency = rng.choice([0, 0, 0.05, 0.2, 0.25, 0.015625, 1, 0.1])
     offgrid = rng.random() < 0.3
+    if rng.random() < 0.35:
+        return {'where': where, 'latency': latency, 'offgrid': offgrid,
+                'steps': history_steps(rng, insts, tags, offgrid),
+                'history': True}
     steps = []
     for _ in range(rng.randint(1, 5)):
         inst = rng.choice(insts)
